@@ -13,11 +13,15 @@ import (
 	"os"
 	"os/exec"
 	"path/filepath"
+	"reflect"
+	"runtime/debug"
+	"runtime/pprof"
 	"sort"
 	"strings"
 	"sync/atomic"
 	"syscall"
 	"time"
+	"unsafe"
 
 	"ariga.io/atlas/sql/migrate"
 	"ariga.io/atlas/sql/mysql"
@@ -86,7 +90,17 @@ func main() {
 		supervise(*outDir)
 		return
 	}
+	debug.SetGCPercent(800) // short-lived garbage only (plans, SQL text); the live heap is the set of seen case lines
 	w := out.New(*outDir)
+	if pf := os.Getenv("VERIF_SORT_PROF"); pf != "" { // debugging aid
+		if f, err := os.Create(pf); err == nil {
+			pprof.StartCPUProfile(f)
+			defer pprof.StopCPUProfile()
+		}
+	}
+	if v := os.Getenv("VERIF_SORT_REPLANS"); v != "" { // debugging aid
+		fmt.Sscan(v, &replans)
+	}
 	if f, err := os.Create(filepath.Join(*outDir, "current.txt")); err == nil {
 		curFile = f
 	}
@@ -118,6 +132,9 @@ func main() {
 		genRaw(w, *tier)
 	case "obj":
 		genObj(w, *tier)
+	case "sch":
+		replans = 3
+		genSchemas(w, *tier)
 	default:
 		fmt.Fprintln(os.Stderr, "unknown mode")
 		os.Exit(2)
@@ -131,52 +148,199 @@ type runRes struct {
 	outp []ochg
 	err  string // "", "error", "panic", "unmodelled"
 	msg  string
+	top  []string  // schema-level statements of the (last) plan, in plan order
+	more []failure // violations of the "same value planned again" clause
 }
 
+// decode projects a plan on its table-level changes; schema-level changes (which both planners emit
+// first, in topLevel) are returned separately.
 func decode(cs []schema.Change) ([]ochg, bool) {
+	os, _, ok := decodeTop(cs)
+	return os, ok
+}
+
+func decodeTop(cs []schema.Change) ([]ochg, []string, bool) {
 	var os []ochg
+	var top []string
 	for _, c := range cs {
+		switch c := c.(type) {
+		case *schema.AddSchema:
+			top = append(top, fmt.Sprintf("S%d", num(c.S.Name)))
+			continue
+		case *schema.DropSchema:
+			top = append(top, fmt.Sprintf("T%d", num(c.S.Name)))
+			continue
+		case *schema.ModifySchema:
+			top = append(top, fmt.Sprintf("U%d", num(c.S.Name)))
+			continue
+		}
 		o, ok := observe(c)
 		if !ok {
-			return nil, false
+			return nil, nil, false
 		}
 		os = append(os, o)
 	}
-	return os, true
+	return os, top, true
 }
 
-func guard(f func() ([]schema.Change, error)) (r runRes) {
+// snapshot: the identity of everything a planner is handed and must leave alone -- the elements of
+// the slice, the Changes of each ModifyTable, the table behind each change (name, schema, its
+// ForeignKeys slice and their end points).
+func snapshot(cs []schema.Change) uint64 {
+	h := uint64(14695981039346656037)
+	mix := func(v uint64) { h = (h ^ v) * 1099511628211 }
+	ptr := func(p unsafe.Pointer) { mix(uint64(uintptr(p))) }
+	str := func(s string) {
+		for i := 0; i < len(s); i++ {
+			mix(uint64(s[i]))
+		}
+		mix(0xff)
+	}
+	iface := func(x any) { // a change value: its dynamic type and its pointer
+		v := reflect.ValueOf(x)
+		str(v.Type().String())
+		if v.Kind() == reflect.Pointer {
+			mix(uint64(v.Pointer()))
+		}
+	}
+	tab := func(t *schema.Table) {
+		ptr(unsafe.Pointer(t))
+		str(t.Name)
+		ptr(unsafe.Pointer(t.Schema))
+		mix(uint64(len(t.ForeignKeys)))
+		for _, f := range t.ForeignKeys {
+			ptr(unsafe.Pointer(f))
+			str(f.Symbol)
+			ptr(unsafe.Pointer(f.Table))
+			ptr(unsafe.Pointer(f.RefTable))
+		}
+	}
+	mix(uint64(len(cs)))
+	for _, c := range cs {
+		iface(c)
+		switch c := c.(type) {
+		case *schema.AddSchema:
+			ptr(unsafe.Pointer(c.S))
+			str(c.S.Name)
+		case *schema.DropSchema:
+			ptr(unsafe.Pointer(c.S))
+			str(c.S.Name)
+		case *schema.ModifySchema:
+			ptr(unsafe.Pointer(c.S))
+			str(c.S.Name)
+			mix(uint64(len(c.Changes)))
+			for _, x := range c.Changes {
+				iface(x)
+			}
+		case *schema.AddTable:
+			tab(c.T)
+		case *schema.DropTable:
+			tab(c.T)
+		case *schema.ModifyTable:
+			tab(c.T)
+			mix(uint64(len(c.Changes)))
+			for _, x := range c.Changes {
+				iface(x)
+				switch x := x.(type) {
+				case *schema.AddForeignKey:
+					ptr(unsafe.Pointer(x.F))
+				case *schema.DropForeignKey:
+					ptr(unsafe.Pointer(x.F))
+				case *schema.ModifyForeignKey:
+					ptr(unsafe.Pointer(x.From))
+					ptr(unsafe.Pointer(x.To))
+				}
+			}
+		}
+	}
+	return h
+}
+
+func samePointers(a, b []schema.Change) bool {
+	if len(a) != len(b) {
+		return false
+	}
+	for i := range a {
+		if a[i] != b[i] {
+			return false
+		}
+	}
+	return true
+}
+
+func guard(f func() ([]schema.Change, []failure, error)) (r runRes) {
 	defer func() {
 		if p := recover(); p != nil {
 			r = runRes{err: "panic", msg: fmt.Sprint(p)}
 		}
 	}()
-	cs, err := f()
+	cs, more, err := f()
 	if err != nil {
 		return runRes{err: "error", msg: err.Error()}
 	}
-	os, ok := decode(cs)
+	os, top, ok := decodeTop(cs)
 	if !ok {
 		return runRes{err: "unmodelled", msg: "plan contains a change kind outside the model"}
 	}
-	return runRes{outp: os}
+	return runRes{outp: os, top: top, more: more}
 }
 
+func showPlan(cs []schema.Change) string {
+	os, top, ok := decodeTop(cs)
+	if !ok {
+		return "unmodelled"
+	}
+	return strings.Join(top, ",") + showOut(os)
+}
+
+// replans: how often the same slice value is planned (the observed plan is the last one -- the one
+// `schema apply` executes after the preview). 3 in the stage "schemas".
+var replans = 2
+
+// runSort: sqlx.DetachCycles + sqlx.SortChanges on the table changes (both planners strip the
+// schema-level changes in topLevel before sorting). Same-value clause: the change list is detached
+// and sorted again from the same slice, and the detached list is sorted twice; all plans must be
+// the same and the input must be left as it was.
 func runSort(sc *scenario) runRes {
-	return guard(func() ([]schema.Change, error) {
-		d, err := verifx.DetachCycles(sc.build("int"))
-		if err != nil {
-			return nil, err
+	return guard(func() ([]schema.Change, []failure, error) {
+		in := sc.build("int")[len(sc.pre):]
+		snap := snapshot(in)
+		var more []failure
+		var last []schema.Change
+		first := ""
+		for k := 0; k < replans; k++ {
+			d, err := verifx.DetachCycles(in)
+			if err != nil {
+				return nil, nil, err
+			}
+			dsnap := snapshot(d)
+			last = verifx.SortChanges(d, nil)
+			again := verifx.SortChanges(d, nil)
+			if !samePointers(last, again) {
+				more = append(more, failure{class: "replan-differs", msg: fmt.Sprintf("SortChanges of the same detached list, called twice: %s then %s", showPlan(last), showPlan(again))})
+			}
+			if snapshot(d) != dsnap {
+				more = append(more, failure{class: "input-mutated", msg: "SortChanges changed the slice it was given (elements, ModifyTable.Changes or a table's foreign keys)"})
+			}
+			if k == 0 {
+				first = showPlan(last)
+			} else if p := showPlan(last); p != first {
+				more = append(more, failure{class: "replan-differs", msg: fmt.Sprintf("DetachCycles+SortChanges run %d of the same slice gives %s, the first run gave %s", k+1, p, first)})
+			}
+			if snapshot(in) != snap {
+				more = append(more, failure{class: "input-mutated", msg: fmt.Sprintf("DetachCycles+SortChanges run %d changed the slice it was given (elements, ModifyTable.Changes or a table's foreign keys)", k+1)})
+				snap = snapshot(in)
+			}
 		}
-		return verifx.SortChanges(d, nil), nil
+		return last, more, nil
 	})
 }
 
 // runRaw: SortChanges alone on the change list as given (no DetachCycles first), so that its
 // depth-first search has real work to do: forward edges, 2-cycles of dependsOn, chains.
 func runRaw(sc *scenario) runRes {
-	return guard(func() ([]schema.Change, error) {
-		return verifx.SortChanges(sc.build("int"), nil), nil
+	return guard(func() ([]schema.Change, []failure, error) {
+		return verifx.SortChanges(sc.build("int"), nil), nil, nil
 	})
 }
 
@@ -230,21 +394,73 @@ func runRawCase(w *out.W, id string, sc *scenario, tags ...string) {
 	}
 }
 
+func planCmds(p *migrate.Plan) string {
+	var b strings.Builder
+	for _, c := range p.Changes {
+		b.WriteString(c.Cmd)
+		if len(c.Args) > 0 {
+			fmt.Fprintf(&b, " ARGS %v", c.Args)
+		}
+		switch r := c.Reverse.(type) { // the statement, its comment and its reverse statements
+		case nil:
+		case string:
+			b.WriteString(" REVERSE " + r)
+		case []string:
+			b.WriteString(" REVERSE " + strings.Join(r, " | "))
+		default:
+			fmt.Fprintf(&b, " REVERSE %v", r)
+		}
+		b.WriteString(" -- " + c.Comment + "; ")
+	}
+	return b.String()
+}
+
+func clip(s string) string {
+	if len(s) > 600 {
+		return s[:600] + "..."
+	}
+	return s
+}
+
+// runPlanner: PlanChanges on the whole change list (schema-level changes first, then the table
+// changes), `replans` times from the same slice value: `schema apply` plans once for the preview and
+// ApplyChanges plans the same slice again. Every plan must have the same statements, the input must be
+// left as it was; the observed (judged, compared) plan is the last one.
 func runPlanner(sc *scenario, p migrate.PlanApplier, intT string) runRes {
-	return guard(func() ([]schema.Change, error) {
-		plan, err := p.PlanChanges(context.Background(), "c04", sc.build(intT))
-		if err != nil {
-			return nil, err
+	return guard(func() ([]schema.Change, []failure, error) {
+		in := sc.build(intT)
+		snap := snapshot(in)
+		var more []failure
+		var plan *migrate.Plan
+		first := ""
+		for k := 0; k < replans; k++ {
+			var err error
+			plan, err = p.PlanChanges(context.Background(), "c04", in)
+			if err != nil {
+				if k > 0 {
+					more = append(more, failure{class: "replan-differs", msg: fmt.Sprintf("PlanChanges run %d of the same slice fails (%v), the first run gave a plan", k+1, err)})
+				}
+				return nil, nil, err
+			}
+			if k == 0 {
+				first = planCmds(plan)
+			} else if c := planCmds(plan); c != first {
+				more = append(more, failure{class: "replan-differs", msg: fmt.Sprintf("PlanChanges run %d of the same slice gives {%s}, the first run gave {%s}", k+1, clip(c), clip(first))})
+			}
+			if snapshot(in) != snap {
+				more = append(more, failure{class: "input-mutated", msg: fmt.Sprintf("PlanChanges run %d changed the slice it was given (elements, ModifyTable.Changes or a table's foreign keys)", k+1)})
+				snap = snapshot(in)
+			}
 		}
 		src := make([]schema.Change, len(plan.Changes))
 		for i, c := range plan.Changes {
 			s, ok := c.Source.(schema.Change)
 			if !ok {
-				return nil, fmt.Errorf("plan change %d has no schema.Change source", i)
+				return nil, nil, fmt.Errorf("plan change %d has no schema.Change source", i)
 			}
 			src[i] = s
 		}
-		return src, nil
+		return src, more, nil
 	})
 }
 
@@ -364,9 +580,21 @@ func runCase(w *out.W, id string, sc *scenario, tags ...string) {
 			continue
 		}
 		verdict, viol := judge(sc, in, r.outp)
-		obs = append(obs, fmt.Sprintf("%s out=%s replay=%s", ep.name, showOut(r.outp), verdict))
+		if ep.name != "sort" && len(sc.pre) > 0 {
+			// schema-level statements: each one of the change list, once, first (topLevel)
+			obs = append(obs, fmt.Sprintf("%s out=%s replay=%s top=%s", ep.name, showOut(r.outp), verdict, strings.Join(r.top, ",")))
+			if want := sc.preLine(); strings.Join(r.top, ",") != want {
+				w.Violation(id, "schema-change-not-once", fmt.Sprintf("%s: the executed plan has the schema-level statements [%s], the change list has [%s]; case: %s", ep.name, strings.Join(r.top, ","), want, line))
+			}
+		} else {
+			obs = append(obs, fmt.Sprintf("%s out=%s replay=%s", ep.name, showOut(r.outp), verdict))
+		}
 		if !hyp {
 			viol = nil // outside WF / consistent the property says nothing; the case is compared only
+		}
+		// the same slice value planned again: holds for every input, inside the hypotheses or not
+		for _, v := range r.more {
+			w.Violation(id, v.class, fmt.Sprintf("%s: %s; case: %s", ep.name, v.msg, line))
 		}
 		if hasObj || sc.hasTypes() {
 			// enum types: not in the Coq model (oracle-only stage "objects")
@@ -445,6 +673,7 @@ const (
 	roleD = 1 // dropped
 	roleM = 2 // kept and modified
 	roleK = 3 // kept, untouched (random stage only)
+	roleX = 4 // absent (stage "schemas" only)
 )
 
 func cur(n int) tbl { return tbl{n, 2 * n} }
@@ -457,6 +686,22 @@ func des(n int) tbl { return tbl{n, 2*n + 1} }
 // (variant bit 0 clear) or dropped (set).  Variant bit 1 pairs dropped with added FKs into
 // ModifyForeignKey (same symbol, re-pointed).  order = permutation of the change list.
 func mkScenario(n int, roles []int, adj [][]bool, variant int, order []int) *scenario {
+	return mkScenarioQ(n, nil, roles, adj, variant, order)
+}
+
+// mkScenarioQ: the same with table i named names[i] (= 100*schema + base name; nil: table i is
+// named i and has no schema). Object ids and key symbols go by the index i, so that two tables of
+// one base name in two schemas are different objects with different keys. roleX = the table does
+// not exist on either side (its edges are ignored).
+func mkScenarioQ(n int, names []int, roles []int, adj [][]bool, variant int, order []int) *scenario {
+	nameOf := func(i int) int {
+		if names == nil {
+			return i
+		}
+		return names[i]
+	}
+	cur := func(i int) tbl { return tbl{nameOf(i), 2 * i} }
+	des := func(i int) tbl { return tbl{nameOf(i), 2*i + 1} }
 	sc := &scenario{}
 	var cs []chg
 	for i := 0; i < n; i++ {
@@ -464,27 +709,27 @@ func mkScenario(n int, roles []int, adj [][]bool, variant int, order []int) *sce
 		case roleA:
 			c := chg{kind: 'A', t: des(i)}
 			for j := 0; j < n; j++ {
-				if adj[i][j] && roles[j] != roleD {
+				if adj[i][j] && roles[j] != roleD && roles[j] != roleX {
 					c.fks = append(c.fks, fkey{20 + j, des(i), des(j)})
 				}
 			}
 			cs = append(cs, c)
 		case roleD:
-			sc.cat.tabs = append(sc.cat.tabs, i)
+			sc.cat.tabs = append(sc.cat.tabs, nameOf(i))
 			c := chg{kind: 'D', t: cur(i)}
 			for j := 0; j < n; j++ {
-				if adj[i][j] && roles[j] != roleA {
+				if adj[i][j] && roles[j] != roleA && roles[j] != roleX {
 					c.fks = append(c.fks, fkey{j, cur(i), cur(j)})
-					sc.cat.fks = append(sc.cat.fks, [3]int{i, j, j})
+					sc.cat.fks = append(sc.cat.fks, [3]int{nameOf(i), j, nameOf(j)})
 				}
 			}
 			cs = append(cs, c)
 		case roleM:
-			sc.cat.tabs = append(sc.cat.tabs, i)
+			sc.cat.tabs = append(sc.cat.tabs, nameOf(i))
 			c := chg{kind: 'M', t: des(i)}
 			var adds, drops []int
 			for j := 0; j < n; j++ {
-				if !adj[i][j] {
+				if !adj[i][j] || roles[j] == roleX {
 					continue
 				}
 				switch {
@@ -499,7 +744,7 @@ func mkScenario(n int, roles []int, adj [][]bool, variant int, order []int) *sce
 				}
 			}
 			for _, j := range drops {
-				sc.cat.fks = append(sc.cat.fks, [3]int{i, j, j})
+				sc.cat.fks = append(sc.cat.fks, [3]int{nameOf(i), j, nameOf(j)})
 			}
 			if variant&1 == 1 {
 				c.tcs = append(c.tcs, tch{kind: 'o', k: 1})
@@ -522,7 +767,7 @@ func mkScenario(n int, roles []int, adj [][]bool, variant int, order []int) *sce
 			}
 			cs = append(cs, c)
 		case roleK:
-			sc.cat.tabs = append(sc.cat.tabs, i)
+			sc.cat.tabs = append(sc.cat.tabs, nameOf(i))
 		}
 	}
 	if order == nil {
@@ -616,7 +861,7 @@ func genExhaustive(w *out.W, tier string) {
 // change list goes to sqlx.SortChanges directly.
 func genRaw(w *out.W, tier string) {
 	w.Exhaust = true
-	w.Rule = "raw SortChanges (no DetachCycles before it): every FK graph with self loops over n<=3 tables x every split created/dropped/modified x 4 readings x every input order, then seeded random change sets of 2..8 tables (quick 4000, thorough 60000). Compared: exact output order. Oracle: no panic/loop, output is a permutation of the input. Non-trivial = SortChanges moved something"
+	w.Rule = "raw SortChanges (no DetachCycles before it): every FK graph with self loops over n<=3 tables x every split created/dropped/modified x 4 readings x every input order, then the three tables s1.t1, s2.t1, s1.t2 (same name in two schemas) x roles created/dropped/modified/kept x every FK graph without self loops x 2 readings x every order, then seeded random change sets of 2..8 tables (quick 4000, thorough 60000). Compared: exact output order. Oracle: no panic/loop, output is a permutation of the input. Non-trivial = SortChanges moved something"
 	id := 0
 	for n := 1; n <= 3; n++ {
 		ps := perms(n)
@@ -628,6 +873,33 @@ func genRaw(w *out.W, tier string) {
 					for _, p := range ps {
 						id++
 						runRawCase(w, fmt.Sprintf("w%d-%d", n, id), mkScenario(n, roles, adj, variant, p), fmt.Sprintf("n:%d", n))
+					}
+				}
+			}
+		}
+	}
+	// two schemas with same-named tables (round 3): s1.t1, s2.t1, s1.t2 x roles x FK graphs without self
+	// loops (cross-schema keys included) x 2 readings x every order -- dependsOn's SameTable / SameSchema
+	// tests on forward edges, which DetachCycles never leaves to SortChanges
+	{
+		names := []int{qname(1, 1), qname(2, 1), qname(1, 2)}
+		n := 3
+		ps := perms(n)
+		for bits := uint64(0); bits < 1<<uint(n*n); bits++ {
+			adj := adjOf(n, bits)
+			if adj[0][0] || adj[1][1] || adj[2][2] {
+				continue
+			}
+			for split := 0; split < pow(4, n); split++ {
+				roles := []int{split % 4, split / 4 % 4, split / 16 % 4}
+				for _, variant := range []int{0, 3} {
+					for _, p := range ps {
+						id++
+						sc := mkScenarioQ(n, names, roles, adj, variant, p)
+						if len(sc.cs) == 0 {
+							continue
+						}
+						runRawCase(w, fmt.Sprintf("ws-%d", id), sc, "two-schemas")
 					}
 				}
 			}
@@ -857,6 +1129,270 @@ func genRandom(w *out.W, tier string) {
 			}
 		}
 		runCase(w, fmt.Sprintf("r%d", k), sc, tags...)
+	}
+}
+
+// ---- stage "schemas": change sets that span two (three) schemas with same-named tables, optionally
+// led by schema-level changes; every case is planned three times from the same slice value.
+
+// autoPre: the schema-level changes a realm diff would put in front: AddSchema for a schema all of
+// whose tables (>= 1) are created, DropSchema when all are dropped, ModifySchema otherwise.
+func autoPre(sc *scenario) []schg {
+	kinds := map[int]map[byte]bool{}
+	var order []int
+	note := func(q int, k byte) {
+		s := qschema(q)
+		if s == 0 {
+			return
+		}
+		if kinds[s] == nil {
+			kinds[s] = map[byte]bool{}
+			order = append(order, s)
+		}
+		kinds[s][k] = true
+	}
+	changed := map[int]bool{}
+	for _, c := range sc.cs {
+		note(c.t.name, c.kind)
+		changed[c.t.name] = true
+	}
+	for _, t := range sc.cat.tabs {
+		if !changed[t] {
+			note(t, 'K')
+		}
+	}
+	sort.Ints(order)
+	var pre []schg
+	for _, s := range order {
+		k := kinds[s]
+		switch {
+		case len(k) == 1 && k['A']:
+			pre = append(pre, schg{'S', s})
+		case len(k) == 1 && k['D']:
+			pre = append(pre, schg{'T', s})
+		default:
+			pre = append(pre, schg{'U', s})
+		}
+	}
+	return pre
+}
+
+// bySchema reorders the change list: mode 0 as generated (schema by schema, the order of a realm
+// diff), 1 the tables of schema `first` in front, 2 alternating between the schemas, 3 reversed.
+func bySchema(cs []chg, mode, first int) []chg {
+	var a, b []chg
+	for _, c := range cs {
+		if qschema(c.t.name) == first {
+			a = append(a, c)
+		} else {
+			b = append(b, c)
+		}
+	}
+	switch mode {
+	case 1:
+		return append(a, b...)
+	case 2:
+		var out []chg
+		for len(a) > 0 || len(b) > 0 {
+			if len(a) > 0 {
+				out, a = append(out, a[0]), a[1:]
+			}
+			if len(b) > 0 {
+				out, b = append(out, b[0]), b[1:]
+			}
+		}
+		return out
+	case 3:
+		out := make([]chg, len(cs))
+		for i, c := range cs {
+			out[len(cs)-1-i] = c
+		}
+		return out
+	}
+	return cs
+}
+
+func collides(sc *scenario) bool {
+	seen := map[int]int{}
+	chk := func(q int) bool {
+		if s, ok := seen[qbase(q)]; ok && s != qschema(q) {
+			return true
+		}
+		seen[qbase(q)] = qschema(q)
+		return false
+	}
+	for _, c := range sc.cs {
+		if chk(c.t.name) {
+			return true
+		}
+	}
+	for _, t := range sc.cat.tabs {
+		if chk(t) {
+			return true
+		}
+	}
+	return false
+}
+
+func schTags(sc *scenario, tags ...string) []string {
+	if collides(sc) {
+		tags = append(tags, "names:collide-across-schemas")
+	} else {
+		tags = append(tags, "names:distinct")
+	}
+	if len(sc.pre) > 0 {
+		tags = append(tags, "pre:schema-level-changes-first")
+	} else {
+		tags = append(tags, "pre:none")
+	}
+	return tags
+}
+
+func genSchemas(w *out.W, tier string) {
+	w.Exhaust = true
+	w.Rule = "change sets over two schemas with same-named tables; every case is planned 3 times from the same slice value (DetachCycles+SortChanges, SortChanges of the same detached list twice, mysql.DefaultPlan, postgres.DefaultPlan): the plans must be identical, the slice, the Changes of its ModifyTables and the tables' ForeignKeys untouched, the LAST plan is the one judged and compared. (a) exhaustive: the three tables s1.t1, s2.t1, s1.t2 x every role created/dropped/modified/kept (4^3) x every FK graph without self loops incl. cross-schema keys (2^6; thorough: with self loops 2^9) x readings of a modified table's edges (quick 2; thorough 4, 2 on graphs with self loops) x every input order. (b) a cycle of length 2 or 3 in schema s1 (all created / all dropped / all modified, 4 readings) x for each cycle table a same-named twin in s2 that is absent/created/dropped/modified/kept (5^L - 1) x twin keys (none / the same cycle among the twins / twin -> its namesake in s1 / namesake -> twin) x order (schema by schema, twins first, alternating, reversed) x with and without the schema-level changes of a realm diff in front (AddSchema when all tables of the schema are created, DropSchema when all are dropped, ModifySchema otherwise). (c) seeded random: 4..8 tables over 3 schemas x 3 base names (1 case in 4: one of the three is \"no schema object\"). Oracle as in the other stages (tables identified by (schema, name)) + replan-differs, input-mutated, schema-change-not-once (each schema-level change is in the executed plan exactly once). Non-trivial = the planned order differs from the input order"
+	id := 0
+	// (a)
+	{
+		names := []int{qname(1, 1), qname(2, 1), qname(1, 2)}
+		n := 3
+		ps := perms(n)
+		variants := []int{0, 3}
+		if tier == "thorough" {
+			variants = []int{0, 1, 2, 3}
+		}
+		for bits := uint64(0); bits < 1<<uint(n*n); bits++ {
+			adj := adjOf(n, bits)
+			if tier != "thorough" && (adj[0][0] || adj[1][1] || adj[2][2]) {
+				continue
+			}
+			selfLoop := adj[0][0] || adj[1][1] || adj[2][2]
+			for split := 0; split < pow(4, n); split++ {
+				roles := []int{split % 4, split / 4 % 4, split / 16 % 4}
+				for _, variant := range variants {
+					if selfLoop && variant != 0 && variant != 3 {
+						continue
+					}
+					for _, p := range ps {
+						id++
+						sc := mkScenarioQ(n, names, roles, adj, variant, p)
+						if len(sc.cs) == 0 {
+							continue
+						}
+						runCase(w, fmt.Sprintf("sa-%d", id), sc, schTags(sc, "family:a-three-tables")...)
+					}
+				}
+			}
+		}
+	}
+	// (b)
+	for L := 2; L <= 3; L++ {
+		n := 2 * L
+		names := make([]int, n)
+		for i := 0; i < L; i++ {
+			names[i], names[L+i] = qname(1, i+1), qname(2, i+1)
+		}
+		type base struct{ role, variant int }
+		bases := []base{{roleA, 0}, {roleD, 0}, {roleM, 0}, {roleM, 1}, {roleM, 2}, {roleM, 3}}
+		twinRoles := []int{roleX, roleA, roleD, roleM, roleK}
+		for _, b := range bases {
+			for tr := 1; tr < pow(5, L); tr++ {
+				roles := make([]int, n)
+				x := tr
+				for i := 0; i < L; i++ {
+					roles[i] = b.role
+					roles[L+i] = twinRoles[x%5]
+					x /= 5
+				}
+				for tw := 0; tw < 4; tw++ {
+					adj := adjOf(n, 0)
+					for i := 0; i < L; i++ {
+						adj[i][(i+1)%L] = true
+						switch tw {
+						case 1:
+							adj[L+i][L+(i+1)%L] = true
+						case 2:
+							adj[L+i][i] = true
+						case 3:
+							adj[i][L+i] = true
+						}
+					}
+					for om := 0; om < 4; om++ {
+						if L == 3 && om == 3 && tier != "thorough" {
+							continue
+						}
+						for pre := 0; pre < 2; pre++ {
+							if L == 3 && pre == 0 && tier != "thorough" {
+								continue
+							}
+							id++
+							sc := mkScenarioQ(n, names, roles, adj, b.variant, nil)
+							sc.cs = bySchema(sc.cs, om, 2)
+							if pre == 1 {
+								sc.pre = autoPre(sc)
+							}
+							runCase(w, fmt.Sprintf("sb%d-%d", L, id), sc, schTags(sc, fmt.Sprintf("family:b-cycle%d-with-twins", L), fmt.Sprintf("order-mode:%d", om))...)
+						}
+					}
+				}
+			}
+		}
+	}
+	// (c)
+	r := rng.FromEnv(0xC045)
+	count := 2500
+	if tier == "thorough" {
+		count = 60000
+	}
+	for k := 0; k < count; k++ {
+		var names []int
+		lo := 1
+		if r.Chance(1, 4) {
+			lo = 0 // one of the three "schemas" is: no *schema.Schema at all (SameSchema(nil, s) = false)
+		}
+		for s := lo; s < lo+3; s++ {
+			for b := 1; b <= 3; b++ {
+				names = append(names, qname(s, b))
+			}
+		}
+		p := randPerm(r, len(names))
+		n := 4 + r.Intn(5)
+		nm := make([]int, n)
+		for i := range nm {
+			nm[i] = names[p[i]]
+		}
+		roles := make([]int, n)
+		bias := r.Intn(5)
+		for i := range roles {
+			if bias < 3 && r.Chance(3, 4) {
+				roles[i] = bias
+			} else {
+				roles[i] = r.Intn(4)
+			}
+		}
+		adj := make([][]bool, n)
+		dens := 5 + r.Intn(40)
+		for i := range adj {
+			adj[i] = make([]bool, n)
+			for j := range adj[i] {
+				adj[i][j] = r.Chance(dens, 100)
+			}
+		}
+		if r.Chance(1, 2) {
+			l := 1 + r.Intn(n)
+			q := randPerm(r, n)
+			for i := 0; i < l; i++ {
+				adj[q[i]][q[(i+1)%l]] = true
+			}
+		}
+		sc := mkScenarioQ(n, nm, roles, adj, r.Intn(4), randPerm(r, n))
+		if len(sc.cs) == 0 {
+			continue
+		}
+		if r.Chance(1, 2) {
+			sc.pre = autoPre(sc)
+		}
+		runCase(w, fmt.Sprintf("sc-%d", k), sc, schTags(sc, "family:c-random")...)
 	}
 }
 
